@@ -6,6 +6,7 @@
 import Bridge.Abs
 import Bridge.Rename
 import PtaProofs.Lemmas.QueryErr
+import PtaProofs.Lemmas.DroppedAbsent
 namespace Pta.RM
 open Pta PtaSpec
 
@@ -433,6 +434,19 @@ def cfgSubOK (φ : Str → Str) (c : RuleConfig) : Prop :=
   ∀ ss, c.subjects = some ss → ∀ f ∈ ss, ∀ f' ∈ ss, isStrictSub (φ f.id) (φ f'.id) = isStrictSub f.id f'.id
 
 omit hφ in
+theorem droppedSubjects_map (fs : List Filter)
+    (hsub : ∀ f ∈ fs, ∀ f' ∈ fs, isStrictSub (φ f.id) (φ f'.id) = isStrictSub f.id f'.id) :
+    droppedSubjects (fs.map (Filter.mapId φ)) = (droppedSubjects fs).map (Filter.mapId φ) := by
+  rw [droppedSubjects_eq, droppedSubjects_eq, List.filter_map]
+  congr 1
+  apply List.filter_congr
+  intro m hm
+  simp only [Function.comp_def, List.any_map, mapId_id]
+  apply any_congr_mem
+  intro o ho
+  exact hsub o ho m hm
+
+omit hφ in
 theorem convertAliases_map (c : RuleConfig) (hsub : cfgSubOK φ c) :
     convertAliases (c.mapId φ) = (convertAliases c).mapId φ := by
   unfold convertAliases
@@ -442,7 +456,13 @@ theorem convertAliases_map (c : RuleConfig) (hsub : cfgSubOK φ c) :
     cases hs : c.subjects with
     | none => rfl
     | some ss =>
-      simp only [Option.map_some, dedupSubjects_map φ ss (hsub ss hs)]
+      simp only [Option.map_some, dedupSubjects_map φ ss (hsub ss hs), droppedSubjects_map φ ss (hsub ss hs)]
+
+/-- the existence check on the removed subjects (`droppedAbsent`) commutes with an injective renaming -/
+theorem droppedAbsent_map (g : PGraph Str) (c : RuleConfig) :
+    droppedAbsent (mapGraph φ g) (c.mapId φ) = droppedAbsent g c := by
+  unfold droppedAbsent
+  simp only [RuleConfig.mapId, List.any_map, Function.comp_def, mapId_id, mapId_isRegex, hasNode_map φ hφ]
 
 omit hφ in
 theorem dedupSubjects_sub (fs : List Filter) : ∀ f ∈ dedupSubjects fs, f ∈ fs := by
@@ -463,7 +483,9 @@ theorem assertApplies_map (mt : Str → Str → Bool) (g : PGraph Str) (s : Rule
   split
   · rfl
   · have hca : convertAliases (s.mapId φ).cfg = (convertAliases s.cfg).mapId φ := convertAliases_map φ s.cfg hsub
-    simp only [hca, configMissing_map]
+    simp only [hca, configMissing_map, droppedAbsent_map φ hφ]
+    split
+    · rfl
     split
     · rfl
     · have hb : ((convertAliases s.cfg).mapId φ).behavior = (convertAliases s.cfg).behavior := rfl
@@ -490,7 +512,7 @@ theorem assertApplies_map (mt : Str → Str → Bool) (g : PGraph Str) (s : Rule
                 subst hss
                 exact hreg.1 ss0 hs f (dedupSubjects_sub ss0 f hf)
         generalize convertAliases s.cfg = c at hreg'
-        obtain ⟨subjects, objects, sh, so, sn, ep, dir, anyt⟩ := c
+        obtain ⟨subjects, objects, sh, so, sn, ep, dir, anyt, drp⟩ := c
         cases dir <;> cases subjects <;> cases objects <;> try rfl
         rename_i d ss os
         simp only [RuleConfig.mapId, Option.map_some]
